@@ -310,7 +310,7 @@ class GVN:
             a, b = self._n(t.args[1]), self._n(t.args[2])
             if f_key(a) == f_key(b):
                 return a
-            return self.single(self.atom("phi", self.sshow(t.args[0], maxdepth=4), f_key(a), f_key(b)))
+            return self.single(self.atom("phi", f_key(self._n(t.args[0])), f_key(a), f_key(b)))
         if op == "havoc":
             # (loop id, name, init): loop ids are line numbers -- not part of the value
             return self.single(self.atom("havoc", t.args[1], f_key(self._n(t.args[2]))))
@@ -322,7 +322,7 @@ class GVN:
         if op == "undef":
             return self.single(self.atom("undef", t.args[0]))
         if op == "setitem":
-            return self.single(self.atom("setitem", f_key(self._n(t.args[0])), self.sshow(t.args[1], maxdepth=3),
+            return self.single(self.atom("setitem", f_key(self._n(t.args[0])), self.idx_key(t.args[1]),
                                          f_key(self._n(t.args[2]))))
         # structural default: the operator applied to the numbered operands
         parts = []
@@ -418,7 +418,7 @@ class GVN:
     def _getitem(self, t: T) -> Form:
         base, idx = t.args
         v = self._n(base)
-        key = self.sshow(idx, maxdepth=6)
+        key = self.idx_key(idx)
         i = idx.args[0] if idx.op == "const" and isinstance(idx.args[0], int) and not isinstance(
             idx.args[0], bool) else None
 
@@ -436,6 +436,17 @@ class GVN:
             return r
 
         return self.lin1(v, pick)
+
+    def idx_key(self, idx: T):
+        """Canonical key of a subscript: constants and slices literally, computed index
+        expressions by their value number (never by a truncated rendering)."""
+        if idx.op == "tuple":
+            return ("tup",) + tuple(self.idx_key(x) for x in idx.args)
+        if idx.op == "slice":
+            return ("sl",) + tuple(self.idx_key(x) for x in idx.args)
+        if idx.op == "const":
+            return repr(idx.args[0])
+        return ("v", f_key(self._n(idx)))
 
     def _atom_rewrites(self) -> Dict[int, Form]:
         """Hypotheses whose left side is a subscript: also applied when the same slot is
